@@ -39,8 +39,13 @@ type vSimTimer struct {
 }
 
 func (t *vSimTimer) Now() time.Time                          { return time.Time{} }
-func (t *vSimTimer) Reset(h uint32, v byte, d time.Duration) { t.h, t.v = h, v }
-func (t *vSimTimer) Extend(d time.Duration)                  {}
+// Like the bundled timer, every (re-)arming hands out a NEW channel: an event loop that keeps
+// waiting on a channel it fetched earlier never sees the expiry.
+func (t *vSimTimer) Reset(h uint32, v byte, d time.Duration) {
+	t.h, t.v = h, v
+	t.ch = make(chan time.Time, 1)
+}
+func (t *vSimTimer) Extend(d time.Duration) { t.ch = make(chan time.Time, 1) }
 func (t *vSimTimer) Height() uint32                          { return t.h }
 func (t *vSimTimer) View() byte                              { return t.v }
 func (t *vSimTimer) C() <-chan time.Time                     { return t.ch }
@@ -88,9 +93,17 @@ func vSumEvent(d *dbft.DBFT[crypto.Uint256]) {
 	// an event reaching a decided instance means the application never re-initialised it:
 	// the library ignores everything from now on (C05.O2) and the chain stops here
 	vAssert("C17.reinitialised", !g.decided)
+	// the loop was waiting on the timer channel that is current for this instance (the library
+	// re-arms its timer, and thereby replaces the channel, during most calls)
+	vAssert("C17.timerchannel", vSelectedOn(d.Config.Timer.C()))
 	vAssert("C17.height", g.height == d.Config.CurrentHeight()+1)
 	if g.decided {
 		return
+	}
+	// most events re-arm or extend the timer (changeTimer / extendTimer in the library)
+	if vBool("event.rearms") {
+		vCover("C17.rearm")
+		d.Config.Timer.Reset(g.height, 0, 0)
 	}
 	if vBool("event.decides") {
 		b := &vSimBlock{idx: g.height}
